@@ -735,8 +735,15 @@ def elements_for(c):
     poss = [a for a in c["args"] if not (a["short"] or a["long"])]
     # an explicit `--` is documented to change routing under allow_missing_positional / `last`; not an equivalence there
     if poss and not any(a["last"] for a in poss) and not c["s"]["allow_missing_positional"]:
-        for vals in ([b("p")], [b("p"), b("q")], [b("p"), b("q"), b("r")]):
-            els.append({"kind": "tail", "id": "tail%d" % len(vals), "last": True, "sp": [vals, [b("--")] + vals]})
+        tails = [[b("p")], [b("p"), b("q")], [b("p"), b("q"), b("r")]]
+        if any(a["delim"] for a in poss):
+            d = b(chr([a["delim"] for a in poss if a["delim"]][0]))
+            tails += [[b("p") + d + b("q")], [b("x"), b("p") + d + b("q")], [b("x") + d + b("y"), b("p") + d + b("q")]]
+        for vals in tails:
+            sp = [vals, [b("--")] + vals]
+            if len(vals) >= 2:
+                sp.append([vals[0], b("--")] + vals[1:])          # the escape may also come after the first values
+            els.append({"kind": "tail", "id": "tail%d" % len(vals), "last": True, "sp": sp})
     for s in c["subs"]:
         names = [s["name"]] + s["aliases"]
         if c["s"]["infer_subcommands"]:
@@ -804,6 +811,7 @@ def f_spell():
     add("override-self", cmd("p", [arg("o", "o", "opt"), arg("a", "a", "aa", action="SetTrue"), arg("c", "c", action="Count")], args_override_self=True))
     add("delim+append", cmd("p", [arg("o", "o", "opt", action="Append", delim=","), arg("a", "a", action="SetTrue"), arg("p1", num=(0, None))]))
     add("hyphen-option", cmd("p", [arg("a", "a", "aa", action="SetTrue"), arg("o", "o", "opt", hyphen=True), arg("p1", num=(0, None))]))
+    add("delim-positional", cmd("p", [arg("a", "a", "aa", action="SetTrue"), arg("p1", num=(0, None), delim=",")]))
     add("flag-subcommands", cmd("pac", [arg("v", "v", action="Count"), arg("q", "q", "quiet", action="SetTrue")],
                                 subs=[cmd("sync", [arg("u", "u", action="SetTrue"), arg("y", "y", action="Count")], short_flag="S", long_flag="sync",
                                           long_flag_aliases=["synchronise"], short_flag_aliases=["Y"]),
